@@ -18,12 +18,24 @@ impl Database {
     pub fn list_conflicts_keys(&self, key: &String) -> Vec<String> {
         // records are named $conflicts_<key>_<op id>: match the whole key name, not a
         // substring of it ("" lists the records of every key)
-        let pattern = if key.is_empty() {
-            format!("{prefix}_*", prefix = CONFLICTS_KEY)
+        // A plain prefix test: the key-listing patterns drop every '*', also the ones that are part
+        // of the key's name, and a key such as "a*b" never found its own records
+        let prefix = if key.is_empty() {
+            format!("{prefix}_", prefix = CONFLICTS_KEY)
         } else {
-            format!("{prefix}_{key}_*", key = key, prefix = CONFLICTS_KEY)
+            format!("{prefix}_{key}_", key = key, prefix = CONFLICTS_KEY)
         };
-        let pendding_conflict = self.list_keys(&pattern, true);
+        #[cfg(nundb_verif)]
+        crate::verif_hooks::yield_point("map.read");
+        let mut pendding_conflict: Vec<String> = self
+            .map
+            .read()
+            .unwrap()
+            .iter()
+            .filter(|(key, v)| v.state != ValueStatus::Deleted && key.starts_with(&prefix))
+            .map(|(key, _v)| key.to_string())
+            .collect();
+        pendding_conflict.sort();
         pendding_conflict
     }
     // Separate local conflict with replication conflict
